@@ -659,16 +659,29 @@ def setter_pairs(case):
         def args(params):
             return [{"constants_for_params": c, "country_data": row.copy(), "time_consts": {}, "time_consts_for_params": {}}.get(p, c) for p in params]
 
+        def flags_of(obj):
+            return {k: v for k, v in obj.__dict__.items() if k.endswith("_SET")}
+
+        f0 = flags_of(s)
         try:
             getattr(s, a)(*args(pa))
-        except (AssertionError, KeyError, TypeError):
+        except (AssertionError, KeyError, TypeError) as err:
+            # a refused call (a precondition not met on a fresh loader) must leave no option family marked as applied
+            cx.n["refused_first_calls"] += 1
+            if isinstance(err, AssertionError) and flags_of(s) != f0:
+                ch = sorted(k for k in f0 if flags_of(s).get(k) != f0[k])
+                cx.bad("refused_setter_marks_family_as_set", "%s refused on a fresh loader (%s) but left %s changed: a missing option would no longer be detected" % (a, str(err)[:60], ch), setter=a, flags=ch)
             continue
         cx.n["ordered_pairs"] += 1
+        f1 = flags_of(s)
         try:
             getattr(s, b)(*args(pb))
             second_ok = True
-        except AssertionError:
+        except AssertionError as err:
             second_ok = False
+            if flags_of(s) != f1:
+                ch = sorted(k for k in f1 if flags_of(s).get(k) != f1[k])
+                cx.bad("refused_setter_marks_family_as_set", "%s refused after %s (%s) but left %s changed" % (b, a, str(err)[:60], ch), setter=b, first=a, flags=ch)
         except (KeyError, TypeError):
             continue
         if fa == fb and second_ok:
@@ -677,6 +690,27 @@ def setter_pairs(case):
             cx.bad("independent_setter_refused", "%s refused after %s although they set different families (%s / %s)" % (b, a, fb[0], fa[0]), first=a, second=b)
         if fa == fb:
             cx.n["same_family_pairs"] += 1
+    # every setter on a loader whose constants are exactly what the initialisation gives (no stored-food regime chosen, no horizon):
+    # a setter that refuses because something it needs has not been set yet must not mark its family as applied
+    if case["shard"] == 0:
+        for a in names:
+            fa, pa, ga = fams[a]
+            s = Scenarios()
+            c = s.init_global_food_system_properties() if ga else s.init_country_food_system_properties(row.copy())
+            f0 = {k: v for k, v in s.__dict__.items() if k.endswith("_SET")}
+            try:
+                getattr(s, a)(*[{"constants_for_params": c, "country_data": row.copy(), "time_consts": {}, "time_consts_for_params": {}}.get(p, c) for p in pa])
+            except AssertionError as err:
+                cx.n["refused_on_bare_loader"] += 1
+                f1 = {k: v for k, v in s.__dict__.items() if k.endswith("_SET")}
+                if f1 != f0:
+                    ch = sorted(k for k in f0 if f1.get(k) != f0[k])
+                    cx.bad("refused_setter_marks_family_as_set", "%s refused on a bare loader (%s) but left %s changed: the same value is then refused as already set and a missing option is no longer detected" % (
+                        a, " ".join(str(err).split())[:70], ch), setter=a, flags=ch)
+            except (KeyError, TypeError):
+                cx.n["bare_loader_calls_skipped"] += 1
+            else:
+                cx.n["accepted_on_bare_loader"] += 1
     # every family flag must be required by check_all_set
     flags = sorted({fl[0] for fl, p, g in fams.values() if len(fl) == 1})
     for fl in flags:
